@@ -13,7 +13,7 @@ use async_trait::async_trait;
 use crux_http::client::Client;
 use crux_http::http::{Method, Url};
 use crux_http::middleware::{Middleware, Next, Redirect};
-use crux_http::protocol::{HttpHeader, HttpResponse, HttpResult};
+use crux_http::protocol::HttpResult;
 use crux_http::{HttpError, Request, ResponseAsync};
 use mc_kit::{catch, par_map, Deadline, Reporter, Tier, Violation};
 use serde::{Deserialize, Serialize};
@@ -386,14 +386,11 @@ fn answer_resp(a: Answer, k: usize) -> Resp {
 fn answer_result(a: Answer, k: usize) -> HttpResult {
     match a {
         Answer::ShellError => HttpResult::Err(HttpError::Io(format!("shell-error#{k}"))),
-        Answer::Status(status, loc) => HttpResult::Ok(HttpResponse {
+        Answer::Status(status, loc) => HttpResult::Ok(crate::app::shell_response(
             status,
-            headers: loc
-                .header()
-                .map(|l| vec![HttpHeader { name: "Location".into(), value: l.into() }])
-                .unwrap_or_default(),
-            body: format!("answer#{k}").into_bytes(),
-        }),
+            loc.header().map(|l| ("Location", l)),
+            format!("answer#{k}").into_bytes(),
+        )),
     }
 }
 
